@@ -6,11 +6,15 @@ PROP = {
         "IdenaModel.BlockBuild.filter_gas_bound",
         "IdenaModel.BlockBuild.process_filter_legacy_ok",
         "IdenaModel.BlockBuild.legacy_state_runs_ahead",
+        "IdenaModel.BlockBuild.filterD_all_kept",
+        "IdenaModel.BlockBuild.propose_accepted",
+        "IdenaModel.BlockBuild.propose_as_found_rejected",
     ],
     "channels": [{"name": "C02", "exe": "oracle_c02"}],
     "trusted_base": [
         "per-transaction verdicts (ValidateTx, applyTxOnState, fee, gas) are parameters of the theorem; the correspondence feeds the recorded real verdicts",
         "header derivation (flags, bloom, CIDs, roots, fee rate) is not in the Lean model: both paths call the same Go functions; covered by the two-replica run (B's real ValidateBlock on A's real ProposeBlock) and by C03's tampering matrix",
+        "side-effecting validation (finding F18): `propose_accepted` is about ProposeBlock's shape `filter; if dropped then strict re-run on a clean state`; that shape is re-extracted from blockchain.go by go/ast on every run (fact line) and exercised by the two-replica run with conflicting candidates",
         "chain fixture harness/internal/chainfx + pairfx (two real replicas, virtual clock, ceremony attach shim)"],
     "assumptions": ["Upgrade10 gas regime (every configuration since consensus v10); the legacy regime is modelled and its divergence documented"],
 }
